@@ -203,6 +203,18 @@ pub fn catch<T>(f: impl FnOnce() -> T) -> Result<T, String> {
 // ---------------------------------------------------------------------------------------------
 // Reporter
 
+/// Emit one protocol line with a single write (many Miri executions may share one stdout; pieces of
+/// lines streamed through the line buffer would otherwise interleave and be dropped by the parser).
+pub fn emit_line(v: &Value) {
+    use std::io::Write;
+    let mut line = v.to_string();
+    line.push('\n');
+    let out = std::io::stdout();
+    let mut lock = out.lock();
+    let _ = lock.write_all(line.as_bytes());
+    let _ = lock.flush();
+}
+
 pub struct Reporter {
     pub prop: String,
     pub evaluations: u64,
@@ -294,10 +306,7 @@ impl Reporter {
         let n = self.printed_per_sig.entry(sig.to_string()).or_insert(0);
         *n += 1;
         if *n <= 3 {
-            println!(
-                "{}",
-                json!({"t":"violation","prop":self.prop,"sig":sig,"what":what,"case":case})
-            );
+            emit_line(&json!({"t":"violation","prop":self.prop,"sig":sig,"what":what,"case":case}));
         }
     }
     pub fn violations(&self) -> u64 {
@@ -312,14 +321,11 @@ impl Reporter {
         if !per_sig.is_empty() {
             self.extra.insert("violations_by_signature".into(), json!(per_sig));
         }
-        println!(
-            "{}",
-            json!({
+        emit_line(&json!({
                 "t":"summary","prop":self.prop,"evaluations":self.evaluations,
                 "distinct_nontrivial":self.distinct.len(),"rule":rule,"samples":self.samples,
                 "exhaustive":exhaustive,"min_obs_ok":self.min_obs_fail.is_empty(),
                 "min_obs_reason":self.min_obs_fail,"extra":self.extra,"violations":self.violations
-            })
-        );
+            }));
     }
 }
